@@ -1,6 +1,6 @@
 (* C12 — stubs are valid Python and mirror the traced functions' real signatures. *)
 From Coq Require Import List Bool Arith ZArith String Ascii Permutation.
-From MT Require Import Constants StubRender StubRenderSig StubRenderModule StubRenderProps.
+From MT Require Import Constants StubRenderConstants StubRender StubRenderSig StubRenderModule StubRenderProps.
 Import ListNotations.
 Open Scope list_scope.
 
@@ -167,3 +167,16 @@ Qed.
 Example ex_has_self :
   map has_self [KModule; KClass; KInstance; KStatic; KProperty; KCachedProperty] = [false; true; true; false; true; true].
 Proof. vm_compute. reflexivity. Qed.
+
+(* the literals the model copies from monkeytype/stubs.py equal what the source says now
+   (Gen/StubRenderConstants.v is regenerated from /repo on every run) *)
+Example ex_source_literals :
+  max_line = stub_max_line_len
+  /\ map (fun k => (fkind_name k, decorator_of k)) [KModule; KClass; KInstance; KStatic; KProperty; KCachedProperty]
+     = stub_decorators
+  /\ map fst stub_decorators = map fst function_kinds
+  /\ indent4 = stub_class_body_prefix
+  /\ lines_multi "" [FSlash] = [TLayout (String nl stub_wrapped_param_indent); TSlash]
+  /\ toks_text (join_single [FSlash; FSlash]) = ("/" ++ stub_single_line_separator ++ "/")%string
+  /\ lines_text (join_parts [[LBlank]; [LBlank]]) = string_of_list_ascii (repeat nl stub_part_separator_newlines).
+Proof. vm_compute. repeat split; reflexivity. Qed.
